@@ -1,5 +1,12 @@
 import Glas.Props.C18
+import Glas.Props.C18Dot
 #print axioms Glas.Props.C18.holes_refine_spec
 #print axioms Glas.Props.C18.completion_iff_resolvable
 #print axioms Glas.Props.C18.buildValues_keys_nodup
 #print axioms Glas.Props.C18.completion_nodup
+#print axioms Glas.Props.C18Dot.accessor_iff
+#print axioms Glas.Props.C18Dot.not_accessor_of_missing
+#print axioms Glas.Props.C18Dot.not_accessor_of_different
+#print axioms Glas.Props.C18Dot.accessors_nodup
+#print axioms Glas.Props.C18Dot.moduleDot_iff
+#print axioms Glas.Props.C18Dot.private_never_offered
